@@ -9,7 +9,7 @@ from . import common as C
 from . import gram, batch
 
 
-def make_grammars(rng, n, p_err):
+def make_grammars(rng, n, p_err, conflict_bias=0.0):
     gs = []
     for k in range(n):
         nt = rng.choice([2, 3, 3, 4])
@@ -20,6 +20,9 @@ def make_grammars(rng, n, p_err):
         if rng.random() < 0.3:
             terms.append((2, rng.choice(["+", "if", "(", "a"])))
         err = rng.random() < p_err
+        if rng.random() < conflict_bias:
+            gs.append({"lex": lex, "syn": gram.conflict_rich_syn(rng, terms), "err": False})
+            continue
         syn = gram.rand_syn(rng, terms, nnt=rng.choice([1, 2, 2, 3, 3, 4]), max_alts=rng.choice([2, 3]),
                             max_len=rng.choice([2, 3, 3, 4]), p_empty=rng.choice([0, 0.2, 0.4]),
                             p_error=0.35 if err else 0.0)
@@ -133,9 +136,9 @@ def gen_inputs(rng, g, types, n_random, max_enum=130):
     return uniq
 
 
-def run_family(ck, n_grammars, n_random, p_err=0.3, want_hist=True):
+def run_family(ck, n_grammars, n_random, p_err=0.3, want_hist=True, conflict_bias=0.0):
     rng = ck.rng
-    gs = make_grammars(rng, n_grammars, p_err)
+    gs = make_grammars(rng, n_grammars, p_err, conflict_bias)
     b = batch.Batch("parse")
     out = []
     try:
